@@ -5,32 +5,65 @@ CHECK = {'pkgs': ['core/sigagg'],
  'run': 'TestVerifC09',
  'level': 'exploration',
  'engine': 'enumx',
- 'technique': 'small-scope exhaustive enumeration of partial-signature lists (share subsets x list orders x corruption patterns x validators '
-              'per call x map iteration order) against the real sigagg.Aggregator with the real verifier, real BLS threshold keys and '
-              'every Eth2SignedData type; published objects are re-verified independently of the code under test',
+ 'technique': 'small-scope exhaustive enumeration against the real sigagg.Aggregator with the real verifier (sigagg.NewVerifier), real BLS threshold '
+              'keys and every Eth2SignedData type, in four dimensions: (1) single calls on a fresh Aggregator: partial-signature lists (share '
+              'subsets x list orders x corruption patterns x validators per call x map iteration order); (2) operation sequences: every '
+              'sequence of 2 (thorough: 3) calls from an explicit call alphabet on ONE long-lived Aggregator + verifier instance; (3) '
+              'environment faults: the eth2 client given to the verifier is a wrapper that serves the beaconmock answers and can fail any '
+              'request of the verification path at its k-th invocation - a counting run discovers the requests of a call, then every fault '
+              'point x fault mode (thorough: every pair) is enumerated; (4) both combined (one faulted and one healthy call on the same '
+              'instance, either order). Published objects are re-verified independently of the code under test',
  'claim': 'cluster (n,t)=(4,3), 2 validators with independent threshold keys and different payloads. Every core.Eth2SignedData type '
           '(attestation, full/blinded proposal, randao, exit, builder registration, beacon committee selection, aggregate-and-proof plain and '
           'versioned, sync message, signed contribution-and-proof, sync committee selection, contribution-and-proof selection proof; quick: one '
           'fork version per type, 14 variants; thorough: every fork version the code supports - attestations and aggregate-and-proofs phase0..fulu, proposals bellatrix..fulu - 37 variants; attestations with the validator index '
-          'on no/first/last partial). Lists: every size-3 and the size-4 share subset (quick: ascending order; thorough: every order of the '
+          'on no/first/last partial). '
+          'DIMENSION 1, single call on a fresh Aggregator. Lists: every size-3 and the size-4 share subset (quick: ascending order; thorough: every order of the '
           'list). Per list: the uncorrupted list, and one corruption on every position: share of the other validator, ShareIdx relabelled to '
           'every other value in 0..5, signature over altered content, altered object with original signature, truncated / all-zero / infinity '
           'signature, signature under another domain, signature under an epoch of another fork, repeated share, dropped share; whole-list '
           'corruptions (all shares of the other validator, all over altered content, all under wrong domain, all under wrong epoch); thorough '
           'adds every pair of corruptions on size-4 lists (5x5 kinds x 6 position pairs). Each as a single-validator call (quick: validator 0, thorough: either) '
-          'and as a two-validator call with the corruption in either validator, both map iteration orders. Oracle: everything handed to '
+          'and as a two-validator call with the corruption in either validator, both map iteration orders. '
+          'DIMENSION 2, operation sequences on one instance (same duty key every time, share list [1,2,3]). Representative call alphabet per type X (22 calls; 20 for '
+          'the builder registration, 23 for randao / beacon committee selection): validator 0 payload A: valid, one corrupt partial (middle position) of each of 5 classes '
+          '(other validator\'s share, signature over altered content, zero signature, wrong domain, repeated share index), whole-list corruptions (the other '
+          'validator\'s complete valid list under this key = identical root under another validator, all over altered content, all under the all-zero '
+          'domain, all under wrong epoch); validator 0 payload B (another message root): valid, one / all signatures taken from payload A; '
+          'validator 1: valid, corrupt, validator 0\'s list; both validators in one call: valid, corrupt in either; another duty type Y (randao; for randao the '
+          'beacon committee selection): valid, corrupt; payload of X whose epoch lies in another fork: valid; and for randao <-> beacon committee selection '
+          '(slot number == epoch number, hence the IDENTICAL message root under different domains) the replay of the other duty\'s signatures. Quick: all '
+          'sequences of length 2 over this alphabet; thorough: all of length 3, plus all ordered pairs over the full alphabet (every single-partial corruption class of '
+          'dimension 1 on every position for validator 0, on the middle position for payload B / validator 1 / two-validator calls / type Y, all 6 whole-list corruptions; 171 calls). '
+          'DIMENSION 3, environment faults. Requests discovered on the verification path: Spec, Domain, GenesisDomain (Genesis, ForkSchedule, Fork, SlotsPerEpoch, '
+          'SlotDuration are wrapped too; any other client method would panic and be reported as a harness gap). Fault modes per request: error; context '
+          'deadline passes during the request (fails with DeadlineExceeded, context stays expired); slow (right answer, but the deadline has passed on return, every '
+          'later request fails). Inputs: {valid list, one corrupt partial of each of the 5 representative classes (thorough: every class on every position), each of the 6 whole-list '
+          'corruptions} x {single-validator call, two-validator call with the corruption in either validator (thorough: both validators, both map orders)}; quick: '
+          'every single fault point x mode, thorough: also every pair of fault points x mode x mode. '
+          'DIMENSION 4, combined: sequences of 2 calls where exactly one call carries one fault (every fault point x mode of that call); quick: the faulted call is the valid call of X and the other '
+          'ranges over the representative alphabet, thorough: both range over the representative alphabet; both orders. '
+          'ORACLE, applied to EVERY call of every dimension: everything handed to '
           'either subscriber verifies (tbls.Verify, harness-side domain/epoch table, signing root composed in the harness) under the group key '
-          'of its validator and has the message root the honest partials signed; if fewer than t valid distinct agreeing shares were supplied '
-          'for a validator the call returns an error and no subscriber is called at all',
+          'of its validator, belongs to a validator of that call and has the message root the honest partials of that call signed; if fewer than t valid distinct agreeing shares were supplied '
+          'for a validator the call returns an error and no subscriber is called at all (under a fault, returning an error and publishing nothing is always legal, publishing a valid aggregate too). '
+          'Differential oracle for every healthy call made after a prefix: its verdict (published / rejected) equals the verdict of the same call on a fresh instance',
  'trusted': 'herumi BLS (tbls.Sign/Verify/ThresholdSplit), go-eth2-client SSZ hash-tree-roots and the beaconmock eth2 client as the source of '
             'domain types, fork schedule and SLOTS_PER_EPOCH; harness-side table mapping each object type to its consensus-spec domain name and '
-            'epoch field; MessageRoot() of the published object is taken as its signed content',
- 'rule': 'one evaluation = one Aggregate call on a fresh Aggregator; distinct = (type/version, corruption kind, list size, validators per '
-         'call, published/rejected)',
+            'epoch field; MessageRoot() of the published object is taken as its signed content; the fault wrapper models a failing / slow beacon node only by '
+            'errors, an expired context and late answers - never by wrong answers',
+ 'rule': 'one evaluation = one case: dimension 1 one Aggregate call on a fresh Aggregator; dimension 2 one sequence of 2 or 3 calls on one instance; dimension 3 one call under one fault script; '
+         'dimension 4 one faulted + one healthy call on one instance (transitions = Aggregate calls). distinct = (dimension, type/version, corruption kind of the (last) call, list size, '
+         'validators per call, relation to the earlier calls, fault methods/modes, published/rejected pattern)',
  'budget_s': {'quick': 100, 'thorough': 1500}}
 CHECK["assumptions"] = ENUMX_ASSUME + [
     "a size-4 list with one corrupted partial still contains 3 valid distinct agreeing shares: publishing a valid aggregate for it is "
     "treated as legal (only the safety half of the statement is demanded there; set VERIF_C09_STRICT=1 for the literal reading)",
     "payload values other than slot/epoch fields are random per process (oracle is a relation holding for any value); slot/epoch fields are "
     "pinned so that the correct epoch and every decoy epoch fall into different forks of the mock's schedule",
+    "sequences: every call of an instance uses the same core.Duty key (slot 1, the type's duty) - the strongest aliasing a per-duty state could see; "
+    "state kept in package-level variables would also be shared with the 'fresh instance' runs of the differential oracle (the per-call oracle does not depend on it)",
+    "the differential oracle (verdict after a prefix == verdict on a fresh instance) is stricter than the statement in the direction published->rejected "
+    "(the statement promises no liveness); it is reported under its own signature kind=history-dependent-verdict",
+    "fault scripts are positioned on the requests of the healthy counting run of the same call; a request that the code only makes under a fault (a retry) is served healthy",
 ]
